@@ -18,7 +18,7 @@ def replay(path):
     if pid == "C11" and "text" in w:
         import c11
         tgt = os.path.join(build.WORK, "tgt", "pretty")
-        p = build.cargo_build(os.path.join(build.RUST, "pretty"), tgt)
+        p = build.cargo_build(os.path.join(build.rust_dir(), "pretty"), tgt)
         d = tempfile.mkdtemp(prefix="vfr_", dir=build.WORK)
         try:
             cf, of = os.path.join(d, "c.tsv"), os.path.join(d, "o.txt")
